@@ -3,12 +3,12 @@
 (* statements over a small alphabet placed on the zero-page boundary is run through the   *)
 (* pass machine.  Checked: a build that ends "ok" is a fixed point of the reference       *)
 (* semantics (no value of an earlier pass survives), and the loop ends within MaxPass.    *)
-EXTENDS Asm
+EXTENDS Asm, Json, IOUtils, SequencesExt
 CONSTANTS MaxLen, MaxLen2, MaxLen3, MaxLen4, MaxLen5, MaxPass, Origin, Shrinking
 
 N(n) == [k |-> "num", n |-> n, radix |-> "dec", lz |-> 0]
 Id(p) == [k |-> "id", name |-> JoinPath(p), path |-> p, mod |-> ""]
-IdM(p, m) == [k |-> "id", name |-> m \o JoinPath(p), path |-> p, mod |-> m]
+IdM(p, m) == [k |-> "id", name |-> JoinPath(p), path |-> p, mod |-> m]
 Plus(e, n) == [k |-> "bin", op |-> "+", l |-> e, r |-> N(n)]
 Insn(mn, form, e) == [k |-> "insn", mn |-> mn, form |-> form, e |-> e, sid |-> "0"]
 Label(n) == [k |-> "label", name |-> n, hasBody |-> FALSE, body |-> <<>>, sid |-> "0"]
@@ -25,7 +25,10 @@ Alphabet ==
         [k |-> "const", name |-> "c", e |-> Plus(Id(<<"b">>), 254), sid |-> "0"],
         Insn("sta", "dir", Id(<<"c">>)),
         [k |-> "label", name |-> "s", hasBody |-> TRUE, sid |-> "0",
-           body |-> <<Insn("lda", "dir", Id(<<"super", "b">>)), [k |-> "label", name |-> "b", hasBody |-> FALSE, body |-> <<>>, sid |-> "0"]>>]}
+           body |-> <<Insn("lda", "dir", Id(<<"super", "b">>)), [k |-> "label", name |-> "b", hasBody |-> FALSE, body |-> <<>>, sid |-> "0"]>>],
+        (* a reference in front of the inner definition of a name the outer scope has too: the inner one is meant *)
+        [k |-> "braces", sid |-> "$B",
+           body |-> <<Insn("jmp", "dir", Id(<<"b">>)), Insn("nop", "imp", N(0)), [k |-> "label", name |-> "b", hasBody |-> FALSE, body |-> <<>>, sid |-> "0"]>>]}
 
 (* a second family: two segments (one relocated), a brace scope with block symbols, a forward constant, `* =` backwards *)
 Alphabet2 ==
@@ -75,10 +78,13 @@ SetPc == [k |-> "setpc", e |-> N(Origin), sid |-> "org"]
 VARIABLES prog, m
 vars == <<prog, m>>
 
-Init == /\ prog \in {<<SetPc>> \o Sid(p) : p \in Programs} \cup {Prelude2 \o Sid(p) : p \in Programs2} \cup {<<SetPc3>> \o Sid(p) : p \in Programs3}
+InitProgs == {<<SetPc>> \o Sid(p) : p \in Programs} \cup {Prelude2 \o Sid(p) : p \in Programs2} \cup {<<SetPc3>> \o Sid(p) : p \in Programs3}
                   \cup {<<MacroM, SetPc>> \o Sid(p) : p \in Programs4}
                   \cup (IF MaxLen5 = 0 THEN {} ELSE {<<[f EXCEPT !.sid = "front"]>> \o Prelude2 \o Sid(p) : f \in Fronts, p \in Programs5})
+Init == /\ prog \in InitProgs
         /\ m = MInit
+(* spec -> implementation: the whole explored program space goes to the real assembler as well (checks/C02) *)
+Export == ndJsonSerialize(IOEnv.OUT, SetToSeq({[prog |-> p] : p \in InitProgs}))
 Pass == /\ m.phase = "run" /\ m.pass < MaxPass
         /\ m' = Decide(m, RunPass(prog, m, TRUE), 8192)
         /\ UNCHANGED prog
